@@ -22,11 +22,16 @@ pub struct ChunkedReader {
     sched: Vec<usize>,
     next: usize,
     budget: Option<usize>, // bytes the source can still deliver
+    kind: io::ErrorKind,   // the kind of error the source fails with once the budget is spent
 }
 
 impl ChunkedReader {
     pub fn new(data: Vec<u8>, sched: Vec<usize>, fail_at: Option<usize>) -> Self {
-        Self { data, pos: 0, end: 0, sched, next: 0, budget: fail_at }
+        Self { data, pos: 0, end: 0, sched, next: 0, budget: fail_at, kind: io::ErrorKind::Other }
+    }
+    pub fn with_kind(mut self, kind: io::ErrorKind) -> Self {
+        self.kind = kind;
+        self
     }
 }
 
@@ -55,7 +60,7 @@ impl BufRead for ChunkedReader {
                 if left == 0 {
                     return Ok(&[]);
                 }
-                return Err(io::Error::new(io::ErrorKind::Other, "injected read failure"));
+                return Err(io::Error::new(self.kind, "injected read failure"));
             }
             Some(b) => {
                 let n = want.min(b).min(left);
@@ -102,7 +107,21 @@ impl Write for ShortWriter {
     }
 }
 
+// "N:kind" -> the error kind of an injected failure (default: Other)
+fn parse_kind(s: &str) -> io::ErrorKind {
+    match s.split_once(':').map(|(_, k)| k) {
+        Some("eof") => io::ErrorKind::UnexpectedEof,
+        Some("pipe") => io::ErrorKind::BrokenPipe,
+        Some("timeout") => io::ErrorKind::TimedOut,
+        Some("invalid") => io::ErrorKind::InvalidData,
+        Some("reset") => io::ErrorKind::ConnectionReset,
+        Some("wouldblock") => io::ErrorKind::WouldBlock,
+        _ => io::ErrorKind::Other,
+    }
+}
+
 fn parse_opt(s: &str) -> Option<usize> {
+    let s = s.split(':').next().unwrap();
     if s == "-" {
         None
     } else {
@@ -114,7 +133,7 @@ pub fn run(toks: &[&str], out: &mut String) {
     match toks[0] {
         // cnpy HEX SCHED FAIL
         "cnpy" => {
-            let r = ChunkedReader::new(unhex(toks[1]), parse_list(toks[2]), parse_opt(toks[3]));
+            let r = ChunkedReader::new(unhex(toks[1]), parse_list(toks[2]), parse_opt(toks[3])).with_kind(parse_kind(toks[3]));
             match Array::read_npy(r) {
                 Ok(a) => out.push_str(&format!(
                     "OK {} {}",
@@ -127,7 +146,7 @@ pub fn run(toks: &[&str], out: &mut String) {
         // cgeno FILE SCHED FAIL THREADS : the genotype reader built from a chunked stream, all samples, no projection
         "cgeno" => {
             let data = std::fs::read(toks[1]).expect("input file");
-            let r = ChunkedReader::new(data, parse_list(toks[2]), parse_opt(toks[3]));
+            let r = ChunkedReader::new(data, parse_list(toks[2]), parse_opt(toks[3])).with_kind(parse_kind(toks[3]));
             let threads = NonZeroUsize::new(toks[4].parse().unwrap()).unwrap();
             let g = match GenotypeBuilder::default().set_threads(threads).verif_build_from_reader(r) {
                 Ok(g) => g,
